@@ -745,6 +745,7 @@ structure C12St where
   accepts : List (String × String × Bool) := []     -- (local, peer, matched)
   arrivals : List String := []                      -- SYN source addresses in arrival order at the listener
   synDelivered : List (Nat × String) := []          -- (line, SYN source address) of every delivered SYN
+  listeners : List (Nat × Nat × String) := []       -- (host, slot, port) of live listeners
   settled : Bool := false
   res : OResult := {}
 
@@ -782,9 +783,24 @@ def c12Step (st : C12St) (x : Nat × List String × List String) : C12St :=
     let loc := (st.synLocs.find? (·.1 == ln)).map (·.2)
     let st := { st with conns := st.conns ++ [{ host := hostTok h, slot := slotTok s, dst := dst, loc := loc }] }
     c12Result st ln (hostTok h) (slotTok s) obs
+  | [h, "tcp_bind", s, a] =>
+    let hh := hostTok h
+    match obs with
+    | ["ok", p] => { st with listeners := st.listeners ++ [(hh, slotTok s, p)] }
+    | ["err", "addrinuse"] =>
+      -- a listener bind conflicts with listeners only: a port is free again once its listener is dropped,
+      -- whatever streams it accepted are still open
+      let port := match a.splitOn ":" with | [_, q] => q | _ => ""
+      if port != "0" && !st.listeners.any (fun l => l.1 == hh && l.2.2 == port) then
+        st.fail ln s!"listener bind of port {port} on h{hh} refused with AddrInUse although no listener holds it"
+      else st
+    | _ => st
+  | ["ctl", "crash", h] => { st with listeners := st.listeners.filter (·.1 != hostTok h) }
+  | ["ctl", "bounce", h] => { st with listeners := st.listeners.filter (·.1 != hostTok h) }
   | [h, "tcp_cpoll", s] => c12Result st ln (hostTok h) (slotTok s) obs
   | [h, "drop", s] =>
     if obs == ["ok"] then
+      let st := { st with listeners := st.listeners.filter (fun l => !(l.1 == hostTok h && l.2.1 == slotTok s)) }
       c12SetStatus st (hostTok h) (slotTok s) (fun c => if c.status == "pending" then { c with status := "gaveup" } else c)
     else st
   | [_, "tcp_accept", _, _] =>
@@ -1057,7 +1073,7 @@ def oracleC09 (lines : List String) : OResult :=
   -- send, was never connected / dropped / re-bound, with a queue that cannot have overflowed
   let res := if res.ok && drained && cap ≥ 64 && st.sends.length < 60 then
       match st.sends.find? (fun σ =>
-        ((ipOf σ.dst).startsWith "h" || (ipOf σ.dst == "bc" && σ.bcastOn)) &&
+        ((ipOf σ.dst).startsWith "h" || (ipOf σ.dst == "bc" && σ.bcastOn) || (ipOf σ.dst).startsWith "mc") &&
         st.socks.any (fun k => !k.disturbed && k.sinceStep < σ.step && !st.blindReads.contains (k.host, k.slot) &&
           c09Targets σ k && !st.got.contains (k.host, k.slot, σ.id))) with
       | some σ => { res with ok := false, detail := s!"datagram {σ.id} to {σ.dst} was never delivered although the link is healthy and the queue had room" }
@@ -1170,6 +1186,7 @@ structure C04St where
   afterBounce : List Nat := []               -- hosts bounced after a crash (new incarnation)
   members : List (Nat × String × Nat) := []  -- (host, group ip token, step of the join): multicast memberships
   mcSends : List (Nat × String × Nat) := []  -- (datagram id, group ip token, step) accepted sends to a group
+  mcSnap : List (Nat × List Nat) := []       -- datagram id ↦ hosts that were members of its group when it was sent
   mcRecvd : List (Nat × Nat) := []           -- (host, datagram id) received
   res : OResult := {}
 
@@ -1350,6 +1367,10 @@ def c04Line (st : C04St) (ln : Nat) (l : String) : C04St :=
         (match msgId hex with
          | some id =>
            let st := { st with mcRecvd := st.mcRecvd ++ [(x, id)] }
+           -- a datagram sent to a group reaches members only: a crashed / bounced host's memberships are gone
+           let st := match st.mcSnap.find? (·.1 == id) with
+             | some (_, ms) => if ms.contains x then st else st.fail ln s!"h{x} received datagram {id} sent to a multicast group it is not a member of (a membership survived its socket)"
+             | none => st
            if st.lateIds.contains (x, id) then st.fail ln s!"datagram {id} that reached h{x} while it was down was handed to its new incarnation" else st
          | none => st)
       | ["err", "wouldblock"] =>
@@ -1369,7 +1390,11 @@ def c04Line (st : C04St) (ln : Nat) (l : String) : C04St :=
     | ["OP", h, "drop", _] => let x := hostTok h; { st with members := st.members.filter (·.1 != x) }
     | ["OP", _, "udp_send", _, dst, hex] =>
       (match dst.splitOn ":", msgId hex with
-       | [g, _], some id => if g.startsWith "mc" && obs.head? == some "ok" then { st with mcSends := st.mcSends ++ [(id, g, st.step)] } else st
+       | [g, _], some id =>
+         if g.startsWith "mc" && obs.head? == some "ok" then
+           { st with mcSends := st.mcSends ++ [(id, g, st.step)],
+                     mcSnap := st.mcSnap ++ [(id, (st.members.filter (·.2.1 == g)).map (·.1))] }
+         else st
        | _, _ => st)
     | ["OP", h, bind, _, _] =>
       let x := hostTok h
